@@ -178,6 +178,10 @@ type amatch struct {
 	fwd map[string]types.Object
 	bwd map[types.Object]string
 	env map[types.Object]ast.Expr // helper parameter -> argument expression (caller's context)
+	// repl: sub-expressions of the candidate that matched the pattern only through an arithmetic
+	// identity (identity.go) -> the pattern's spelling over the candidate's operands; the
+	// translator translates these instead, so the generated Lean text does not change
+	repl map[ast.Expr]ast.Expr
 }
 
 func unparen(e ast.Expr) ast.Expr {
@@ -285,7 +289,10 @@ func (m *amatch) eq(pat, cand ast.Expr) bool {
 		return c.Name == p.Name
 	case *ast.BinaryExpr:
 		c, ok := cand.(*ast.BinaryExpr)
-		return ok && c.Op == p.Op && m.eq(p.X, c.X) && m.eq(p.Y, c.Y)
+		if ok && c.Op == p.Op && m.eq(p.X, c.X) && m.eq(p.Y, c.Y) {
+			return true
+		}
+		return ok && m.identity(p, c)
 	case *ast.UnaryExpr:
 		c, ok := cand.(*ast.UnaryExpr)
 		return ok && c.Op == p.Op && m.eq(p.X, c.X)
@@ -316,6 +323,15 @@ func (m *amatch) eq(pat, cand ast.Expr) bool {
 // astMatch: does cand match the pattern (Go expression text)?  Second result: the pure helper
 // looked through at the top level, if any (the translator then translates its body).
 func (pi *pkgInfo) astMatch(cand ast.Expr, pattern ast.Expr) bool {
-	m := &amatch{pi: pi, fwd: map[string]types.Object{}, bwd: map[types.Object]string{}}
-	return m.eq(pattern, cand)
+	ok, _ := pi.astMatchR(cand, pattern)
+	return ok
+}
+
+// astMatchR also returns the identity replacements (see amatch.repl) of a successful match.
+func (pi *pkgInfo) astMatchR(cand ast.Expr, pattern ast.Expr) (bool, map[ast.Expr]ast.Expr) {
+	m := &amatch{pi: pi, fwd: map[string]types.Object{}, bwd: map[types.Object]string{}, repl: map[ast.Expr]ast.Expr{}}
+	if m.eq(pattern, cand) {
+		return true, m.repl
+	}
+	return false, nil
 }
